@@ -60,7 +60,7 @@ def run(repo, rep, tier):
     # the rule; white space inside its string literals survives)
     from . import c20 as _c20
     L.borrow(repo, rep, "R06.3", "C20", _c20._lone_value,
-             ("python-text-rewrites",))
+             ("python-text-rewrites", "python-line-ends"), minimum=2)
     # a node's settings (its default marker, its escape set) reach the
     # engine that compiles its expression
     L.engine_fields_rule(repo, rep, "R06.3")
